@@ -407,7 +407,9 @@ def fam_static_store(tier, rng):
     call what the earlier calls stored (element kinds: INTEGER, STRING, STRING * n, record; a fixed-length scalar and a record
     scalar next to them), whoever calls"""
     out = []
-    for kind in ("I", "$", "fix", "rec"):
+    for kind in ("I", "$", "fix", "rec", "I-varbound", "fix-varbound"):
+        varbound = kind.endswith("-varbound")
+        kind = kind.split("-")[0]
         for ncalls in (2, 3):
             for callers in ("main", "proc", "mixed"):
                 b = B()
@@ -431,7 +433,12 @@ def fam_static_store(tier, rng):
                     dimst = b.dim("AR", "I", [dimspec(1, 4)])
                     val = bin_("*", k, lit("I", 11))
                 fs = var("FS", "$"); fs["bare"] = True
-                body = [dimst, b.dim("FS", "$", fix=2), b.dim("RS", "U", ty="REC"),
+                pre = []
+                if varbound:
+                    # the upper bound is a variable of the procedure (made once all the same: the array holds what earlier calls stored)
+                    dimst["dims"] = [{"lo": lit("I", 1), "hi": var("SZ", "I"), "nolo": False}]
+                    pre = [b.let(var("SZ", "I"), lit("I", 4))]
+                body = pre + [dimst, b.dim("FS", "$", fix=2), b.dim("RS", "U", ty="REC"),
                         b.let(k, bin_("+", k, lit("I", 1))), b.let(el(k), val),
                         b.if_([(bin_("=", k, lit("I", 1)), [b.let(fs, lit("$", "first")), b.let(fld(var("RS", "U"), "A", "I"), lit("I", 42))])]),
                         b.print(lit("$", "k"), k, lit("$", "["), el(lit("I", 1)), lit("$", "]["), el(lit("I", 2)), lit("$", "]["), el(lit("I", 3)), lit("$", "]"),
@@ -442,7 +449,7 @@ def fam_static_store(tier, rng):
                     frm = "main" if callers == "main" else "proc" if callers == "proc" else ("main" if i % 2 == 0 else "proc")
                     main.append(b.call("ST", []) if frm == "main" else b.call("VIA", []))
                 main.append(b.print(lit("$", "end")))
-                out.append({"fam": "static-store:%s/%d/%s" % (kind, ncalls, callers), "prog": prog(main, subs, types=TYPES)})
+                out.append({"fam": "static-store:%s%s/%d/%s" % (kind, "-varbound" if varbound else "", ncalls, callers), "prog": prog(main, subs, types=TYPES)})
     return out
 
 
